@@ -21,7 +21,7 @@ Choose ==
        [] stage = 5 -> \E rate \in Rates, pk \in {1, 2, 3, 7}, early \in 0..2 : cfg' = cfg @@ [rate |-> rate, pk |-> pk, early |-> early]
 Cmd ==
   /\ stage = 6 /\ ncmd < MaxCmd /\ ncmd' = ncmd + 1
-  /\ \E c \in {"pause", "resume", "stop", "volume", "panning", "rate"}, d \in {0, 2}, v \in {0, 1, 2} :
+  /\ \E c \in {"pause", "resume", "stop", "volume", "panning", "rate"}, d \in {0, 2, 5}, v \in {0, 1, 2} :
        hist' = Append(hist, [act |-> "Cmd", c |-> c, d |-> d, v |-> v])
   /\ UNCHANGED <<cfg, stage>>
 Cb == stage = 6 /\ hist' = Append(hist, [act |-> "Callback"]) /\ ncmd' = 0 /\ UNCHANGED <<cfg, stage>>
